@@ -1,5 +1,5 @@
 """C15 — conversions between hash variants lose nothing (field-level clauses)."""
-from ..rules import fields, tail, convert, eqord, vis
+from ..rules import fields, tail, convert, eqord, vis, rle
 
 EXPL = ("Decides with the write census over MIR: every conversion copies each field from the like-named (like-indexed) field of the "
         "source; every function writing through a &mut hash destination defines all five fields on every normal return, arrays "
@@ -23,6 +23,7 @@ def run(ctx):
         ctx.guard("C15", "writers", lambda: tail.classify_writers(ctx, prog, scope=CONV, floor=8))
         ctx.guard("C15", "expand", lambda: tail.compress_expand(ctx, prog))
         ctx.guard("C15", "narrow", lambda: convert.narrowing(ctx, prog))
+        ctx.guard("C15", "expand-step", lambda: rle.expand_step(ctx, prog))
         ctx.guard("C15", "traits", lambda: convert.trait_forms(ctx, prog))
         ctx.guard("C15", "funnel", lambda: convert.normaliser_funnel(ctx, prog))
         ctx.guard("C15", "traits", lambda: vis.trait_census(ctx, prog, scope='core::convert::'))
